@@ -134,6 +134,10 @@ def perturb(path, outpath, kind, seed):
     if kind in ("dur", "all"):
         edit(rng(pos["DURATION_PDF"]), rng(pos["DURATION_TREE"]), nstate * 2,
              lambda w: [x * 1.25 for x in w[:nstate]] + w[nstate:])
+    if kind == "lf0low":
+        # every log-F0 static mean lowered by 2 (a factor e^2 in pitch): most voiced means then lie below ln 20 Hz
+        vlen = int(st["VECTOR_LENGTH[LF0]"]); nwin = int(st["NUM_WINDOWS[LF0]"]); msd = int(st["IS_MSD[LF0]"])
+        edit(rng(pos["STREAM_PDF[LF0]"]), rng(pos["STREAM_TREE[LF0]"]), vlen * nwin * 2 + msd, lambda w: [w[0] - 2.0] + list(w[1:]))
     if kind in ("all", "msd"):
         for s in g["STREAM_TYPE"].split(","):
             vlen = int(st["VECTOR_LENGTH[%s]" % s]); nwin = int(st["NUM_WINDOWS[%s]" % s]); msd = int(st["IS_MSD[%s]" % s])
@@ -172,6 +176,7 @@ def fault_base(path):
     kv = []
     cuts = [off]
     texts = []
+    refs = []
     for line in lines:
         if line.startswith("["):
             kv.append({"k": line, "v": "", "kind": "sec", "nums": []})
@@ -202,8 +207,13 @@ def fault_base(path):
             cuts += [off + lo, off + hi + 1]
             if "TREE" in k:
                 texts.append({"lo": off + lo, "hi": off + hi})
+                # child references to the single-digit node ids -1 .. -9 (third / fourth token of a node line): writing "0"
+                # over the digit makes the child the root again, i.e. a reference that resolves but closes a cycle
+                txt = b[off + lo:off + hi + 1]
+                found = [m.start(1) for m in re.finditer(rb"\n\s*-?\d+ \S+ +(?:\S+ +)?-([1-9])(?=[ \n])", txt)]
+                refs += [off + lo + x for x in found[:2] + found[-1:]]
         kv.append({"k": k, "v": v, "kind": kind, "nums": nums})
-    return {"kv": kv, "cuts": sorted(set(cuts)), "total": len(b), "texts": texts}
+    return {"kv": kv, "cuts": sorted(set(cuts)), "total": len(b), "texts": texts, "refs": sorted(set(refs))}
 
 
 def chain_voice(src, dst, n, qname, pats):
